@@ -458,7 +458,7 @@ func genSched(seed uint64, prop, tier, mode string) *Plan {
 	}
 	opsPer := g.Range(2, 5)
 	if race {
-		opsPer = g.Range(6, 20)
+		opsPer = g.Range(12, 36)
 	}
 	p.Knobs["clients"] = K
 	p.Knobs["ops_per_client"] = opsPer
@@ -518,6 +518,9 @@ func genSched(seed uint64, prop, tier, mode string) *Plan {
 	for c := 0; c < K; c++ {
 		var ops []Op
 		nObj := g.Range(1, 3)
+		if race {
+			nObj = g.Range(4, 12) // many different objects per client: more of the rarely taken paths run in parallel
+		}
 		var mine []int
 		for i := 0; i < nObj; i++ {
 			kind := KCert
